@@ -2,6 +2,7 @@ package props
 
 import (
 	"bytes"
+	"context"
 	"encoding/json"
 	"fmt"
 	"math/big"
@@ -9,7 +10,13 @@ import (
 	"strings"
 	"time"
 
+	"google.golang.org/grpc"
+
+	"github.com/ozontech/seq-db/mappingprovider"
+	"github.com/ozontech/seq-db/pkg/seqproxyapi/v1"
 	pb "github.com/ozontech/seq-db/pkg/storeapi"
+	"github.com/ozontech/seq-db/proxyapi"
+	"github.com/ozontech/seq-db/seq"
 
 	"verif/internal/gen"
 	"verif/internal/h"
@@ -24,7 +31,7 @@ func init() {
 		ID:    "C20",
 		Level: "exploration",
 		Rule: "case = (stored JSON objects from a generator covering escapes, unicode, every number notation, nested containers, empty object; field list with present/absent/all/none/repeated names; " +
-			"allow or except mode; surface = store fetch filter or proxy search with '| fields' pipe); oracle reads both sides with encoding/json (numbers as exact rationals): " +
+			"allow or except mode; surface = store fetch filter, proxy search with '| fields' pipe, or the proxy's public Fetch handler with a fields filter; a quarter of the documents carry two members whose names differ only by letter case); oracle reads both sides with encoding/json (numbers as exact rationals): " +
 			"valid JSON object, key set = stored ∩ list (or minus list), values JSON-equal, no-pipe => bytes identical, ID sequence identical to the same query without the pipe; " +
 			"non-trivial = the projection removes some but not all members of some document; distinct = (surface, mode, list class, doc shape class)",
 		Assumptions: []string{"documents with duplicate keys are not generated (statement: faithful projection of an object)", "encoding/json is the independent JSON reader"},
@@ -171,6 +178,19 @@ func seqqlFieldName(f string) string {
 	return b.String()
 }
 
+// fakeFetchStream collects what the proxy's streaming Fetch handler sends.
+type fakeFetchStream struct {
+	grpc.ServerStream
+	ctx  context.Context
+	docs []*seqproxyapi.Document
+}
+
+func (f *fakeFetchStream) Context() context.Context { return f.ctx }
+func (f *fakeFetchStream) Send(d *seqproxyapi.Document) error {
+	f.docs = append(f.docs, d)
+	return nil
+}
+
 func runC20(w *h.W, batch int) {
 	r := w.Rng()
 	nCorp, perCorp := 3, 30
@@ -181,6 +201,32 @@ func runC20(w *h.W, batch int) {
 		keyUse := map[string]int{}
 		for i := 0; i < n; i++ {
 			body := gen.JSONDoc(cr, cr.Range(0, 8), cr.Range(0, 3), nil)
+			if cr.Chance(1, 4) {
+				// a second member whose name differs from an existing one only by letter case (names are case-sensitive)
+				if o, err := decodeObj([]byte(body)); err == nil {
+					var ks []string
+					for k := range o {
+						ks = append(ks, k)
+					}
+					sort.Strings(ks)
+					for _, k := range ks {
+						v := strings.ToUpper(k)
+						if cr.Bool() && len(k) > 0 {
+							v = strings.ToUpper(k[:1]) + k[1:]
+						}
+						plain := k != "" && strings.Trim(k, "abcdefghijklmnopqrstuvwxyz0123456789_") == ""
+						if _, dup := o[v]; plain && v != k && !dup {
+							member := fmt.Sprintf("%q:%d", v, cr.Intn(1000))
+							if len(o) == 0 {
+								body = "{" + member + "}"
+							} else {
+								body = "{" + member + "," + strings.TrimLeft(body, " \t\n")[1:]
+							}
+							break
+						}
+					}
+				}
+			}
 			d := &model.Doc{ID: model.ID{MID: gen.T0 + uint64(cr.Intn(500)), RID: cr.U64()}, Body: []byte(body)}
 			d.Toks = []model.Tok{{F: "k1", V: fmt.Sprintf("g%d", i%3)}}
 			docs = append(docs, d)
@@ -229,6 +275,8 @@ func runC20(w *h.W, batch int) {
 		for _, d := range docs {
 			byID[d.ID] = d
 		}
+		mp, _ := mappingprovider.New("", mappingprovider.WithMapping(StoreMapping()))
+		srv := proxyapi.NewGrpcV1ForVerif(proxyapi.APIConfig{SearchTimeout: time.Minute, ExportTimeout: time.Minute}, cl.Ing, mp)
 		for qi := 0; qi < perCorp; qi++ {
 			qr := cr.Fork()
 			// field list
@@ -259,7 +307,7 @@ func runC20(w *h.W, batch int) {
 				fields = fields[:20]
 			}
 			allow := qr.Bool()
-			surface := h.Pick(qr, []string{"store-fetch", "proxy-pipe"})
+			surface := h.Pick(qr, []string{"store-fetch", "proxy-pipe", "proxy-fetch"})
 			desc := map[string]any{"surface": surface, "fields": fields, "allow": allow, "docs": n, "list_class": lclass}
 			if !w.Begin(desc) {
 				continue
@@ -299,6 +347,48 @@ func runC20(w *h.W, batch int) {
 						continue
 					}
 					s, nt := checkProjection(d.Body, got[i].Data, fields, allow)
+					bad = s
+					nontrivial = nontrivial || nt
+					judged++
+				}
+			} else if surface == "proxy-fetch" {
+				// the proxy's public Fetch handler with a fields filter (IDs of all shards, an absent one among them)
+				var ids []model.ID
+				for _, d := range docs {
+					if qr.Chance(1, 2) {
+						ids = append(ids, d.ID)
+					}
+				}
+				ids = append(ids, model.ID{MID: gen.T0 + 7, RID: 12345})
+				req := &seqproxyapi.FetchRequest{}
+				for _, id := range ids {
+					req.Ids = append(req.Ids, seq.ID{MID: seq.MID(id.MID), RID: seq.RID(id.RID)}.String())
+				}
+				if len(fields) > 0 || qr.Bool() {
+					req.FieldsFilter = &seqproxyapi.FetchRequest_FieldsFilter{Fields: fields, AllowList: allow}
+				}
+				fs := &fakeFetchStream{ctx: context.Background()}
+				var herr error
+				if pn := h.Guard(func() { herr = srv.Fetch(req, fs) }); pn != "" {
+					bad = "proxy Fetch handler panicked (error): " + strings.SplitN(pn, "\n", 2)[0]
+				} else if herr != nil {
+					bad = "proxy Fetch error: " + herr.Error()
+				} else if len(fs.docs) != len(ids) {
+					bad = fmt.Sprintf("%d entries for %d ids", len(fs.docs), len(ids))
+				}
+				for i := 0; bad == "" && i < len(ids); i++ {
+					d := byID[ids[i]]
+					if fs.docs[i].Id != req.Ids[i] {
+						bad = fmt.Sprintf("entry %d has ID %s, requested %s", i, fs.docs[i].Id, req.Ids[i])
+						break
+					}
+					if d == nil {
+						if len(fs.docs[i].Data) != 0 {
+							bad = fmt.Sprintf("absent ID returned data %.80q", fs.docs[i].Data)
+						}
+						continue
+					}
+					s, nt := checkProjection(d.Body, fs.docs[i].Data, fields, allow)
 					bad = s
 					nontrivial = nontrivial || nt
 					judged++
